@@ -64,6 +64,27 @@ def mkseq(g, sid, SR, chans, P, spec, subs):
     return ops, info
 
 
+def many_siblings_case(g):
+    """two operands whose segments all share one base name, ten or more in the sum: the numbering runs on into two digits,
+    and the sum can be copied, stored in an element and forged like any other blueprint"""
+    r = g.r
+    SR = r.choice([10, 100, 1e3])
+    ops = []
+    for bid, k in (("p", r.randint(4, 7)), ("r", r.randint(5, 8))):
+        ops.append({"op": "bp.new", "id": bid})
+        for _ in range(k):
+            ops.append({"op": "bp.insert", "id": bid, "pos": -1, "fn": "ramp", "args": [enc(g.fnum()), enc(g.fnum())], "dur": enc(r.randint(2, 5) / SR),
+                        "name": enc("step")})
+        ops.append({"op": "bp.setSR", "id": bid, "SR": enc(SR)})
+    ops += [{"op": "bp.setSegMarker", "id": "r", "name": "step2", "specs": [q(0), q(2 / SR)], "mid": 1},
+            {"op": "bp.add", "a": "p", "b": "r", "to": "t"}, {"op": "bp.desc", "id": "t"}, {"op": "bp.copy", "id": "t", "to": "tc"}, {"op": "bp.desc", "id": "tc"},
+            {"op": "bp.eq", "a": "t", "b": "tc"}, {"op": "el.new", "id": "et"}, {"op": "el.addBP", "id": "et", "ch": 1, "bp": "t"},
+            {"op": "el.getArrays", "id": "et", "time": False}, {"op": "el.desc", "id": "et"},
+            {"op": "bp.changeArg", "id": "t", "name": "step11", "arg": enc("stop"), "value": enc(0.375)}, {"op": "bp.desc", "id": "t"},
+            {"op": "bp.json", "id": "t", "to": "tj"}, {"op": "bp.desc", "id": "tj"}, {"op": "bp.eq", "a": "tj", "b": "t"}]
+    return ops
+
+
 def bp_case(g):
     r = g.r
     SR = r.choice([10, 100, 1e3, 2.5])
@@ -107,6 +128,8 @@ def bp_case(g):
 
 def case(g, tier, ci):
     r = g.r
+    if ci % 20 == 11:
+        return many_siblings_case(g)
     if r.random() < 0.3:
         return bp_case(g)
     SR = r.choice([10, 100, 1e3, 2.5, 1e6])
